@@ -31,11 +31,11 @@ ClientCancel == ~cancelled /\ cancelled' = TRUE /\ UNCHANGED <<hpos, ctxDone, re
 \* the transport notices the cancel / disconnect and ends the request context
 CtxDone == cancelled /\ ~ctxDone /\ ctxDone' = TRUE /\ UNCHANGED <<hpos, cancelled, released>>
 \* a handler blocked in a stream call is released with an error once the context has ended
-Release == ctxDone /\ hpos \in {"blockedRecv", "blockedSend"} /\ ~released
+Release == ctxDone /\ hpos \in {"blockedRecv", "blockedFirstRecv", "blockedSend"} /\ ~released
            /\ released' = TRUE /\ hpos' = "running" /\ UNCHANGED <<ctxDone, cancelled>>
 CNext == ClientCancel \/ CtxDone \/ Release
 CSpec == CInit /\ [][CNext]_cvars /\ WF_cvars(CNext)
 \* liveness on the model: after a cancel the context ends and nobody stays blocked
-CancelReleases == cancelled ~> (ctxDone /\ hpos \notin {"blockedRecv", "blockedSend"})
+CancelReleases == cancelled ~> (ctxDone /\ hpos \notin {"blockedRecv", "blockedFirstRecv", "blockedSend"})
 NoSpuriousDone == ctxDone => cancelled
 =============================================================================
